@@ -23,6 +23,11 @@
 #define ALN_WRAP_IMPORT
 #include "aln_wrap.h"
 
+#include "kalign_verif.h"
+#ifdef KALIGN_VERIF
+kalign_verif_cb_t kalign_verif_cb = NULL;
+#endif
+
 
 int kalign(char **seq, int *len, int numseq,int n_threads, int type, float gpo, float gpe, float tgpe, char ***aligned, int *out_aln_len)
 {
@@ -60,6 +65,7 @@ int kalign_run(struct msa *msa, int n_threads, int type, float gpo, float gpe, f
         }
         /* Make sure sequences are in order  */
         RUN(msa_sort_len_name(msa));
+        KALIGN_VERIF_EVENT(KV_EV_SORTED, msa, NULL, 0, 0, 0);
 
         /* Convert into internal representation  */
         if(msa->biotype == ALN_BIOTYPE_DNA){
@@ -86,6 +92,7 @@ int kalign_run(struct msa *msa, int n_threads, int type, float gpo, float gpe, f
 #endif
         /* Build guide tree */
         RUN(build_tree_kmeans(msa,&tasks));
+        KALIGN_VERIF_EVENT(KV_EV_TREE, msa, tasks, 0, 0, 0);
 
         /* Convert to full alphabet after having converted to reduced alphabet for tree building above  */
         if(msa->biotype == ALN_BIOTYPE_PROTEIN){
@@ -105,6 +112,7 @@ int kalign_run(struct msa *msa, int n_threads, int type, float gpo, float gpe, f
                            gpo,
                            gpe,
                            tgpe));
+        KALIGN_VERIF_EVENT(KV_EV_PARAMS, msa, ap, type, 0, 0);
 
 
         DECLARE_TIMER(t1);
